@@ -100,6 +100,7 @@ impl Family for C07Family {
             real: &["passkey-client::Client::{register,authenticate}", "passkey-authenticator::Authenticator::{make_credential,get_assertion}", "U2fApi::{register,authenticate}", "lock wrappers over tokio::sync::{Mutex,RwLock}", "MemoryStore"],
             stubs: &["executor (SimExec)", "SimStore seam + reference store", "SimUser", "seeded RNG behind the hook"],
             crash_isolated: false,
+            fresh_thread: true,
         }
     }
 
@@ -113,7 +114,11 @@ impl Family for C07Family {
     fn generate(&self, master: u64, index: u64, _tier: Tier) -> Scenario {
         let seed = run_seed(master, "C07", index);
         let mut r = Rng::new(seed);
-        let backend = if r.chance(1, 8) { Backend::Memory } else { Backend::Ref };
+        let backend = match r.below(12) {
+            0 => Backend::Memory,
+            1 => Backend::Slot,
+            _ => Backend::Ref,
+        };
         let wrap = *r.pick(&WRAPS);
         let mut c = ceremony(backend, wrap, gen_store_cfg(&mut r));
         c.rng_seed = r.next_u64();
@@ -147,6 +152,12 @@ impl Family for C07Family {
                     le: r.bool(),
                 }));
                 *handle = IdRef::Last;
+            }
+        }
+        if let OpKind::U2fRegister { application, handle, .. } = &kind {
+            // sometimes the same key handle was registered before
+            if r.chance(1, 3) {
+                actor.ops.push(plain_op(OpKind::U2fRegister { challenge: r.bytes(32), application: application.clone(), handle: handle.clone(), le: false }));
             }
         }
         if c.backend == Backend::Memory {
@@ -220,6 +231,14 @@ impl Family for C07Family {
                 r.below(256) as u8
             };
             out.push(with(&|op| op.faults = vec![Fault { seam: *kind, nth: *nth, status, sticky: false }], "err1"));
+        }
+        // write calls (save, update) additionally fail with a window of 16 consecutive status
+        // bytes that moves with the base index, so that 16 bases cover all 256 values
+        for (kind, nth) in calls.iter().filter(|(k, _)| *k != SeamKind::Find) {
+            for k in 0..16u64 {
+                let status = ((base.index * 16 + k) % 256) as u8;
+                out.push(with(&|op| op.faults = vec![Fault { seam: *kind, nth: *nth, status, sticky: false }], "err-status"));
+            }
         }
         // every call of one kind keeps failing (a store that is down, a retry loop's worst case)
         for kind in [SeamKind::Find, SeamKind::Save, SeamKind::Update] {
@@ -337,7 +356,8 @@ impl Family for C07Family {
                             stats.probe("cancel_between_save_and_return");
                             let complete = complete_credential(cred).is_ok()
                                 && op_rp(kind, o).as_deref() == Some(cred.rp_id.as_str());
-                            let untouched = !single || {
+                            // (a single-slot store holds one credential by design: a new one replaces the old)
+                            let untouched = !single || c.backend == Backend::Slot || {
                                 // everything that was there is still there, unaltered
                                 o.before.iter().all(|b| b.id == cred.id || o.after.contains(b))
                                     && o.after.iter().all(|a| a == *cred || o.before.contains(a))
